@@ -87,7 +87,7 @@ Definition crashed (o : sx) : bool :=
   match o with L (A t :: _) => has_prefix "!" t | A t => has_prefix "!" t | _ => false end.
 
 Definition c07_verdict (files runs outs : list sx) : list string :=
-  let file_kinds := ["ident"; "full"; "bs"; "api"] in
+  let file_kinds := ["ident"; "full"; "fullw"; "bs"; "api"] in
   ((if existsb crashed outs then ["crash"] else []) ++
   flat_map (fun ro =>
               let r := fst ro in let o := snd ro in
